@@ -19,7 +19,7 @@ import (
 )
 
 // symKeeper builds the real keeper over the model stores with the real constructor.
-func symKeeper() (Keeper, []byte) {
+func zzvSymKeeper() (Keeper, []byte) {
 	ss := zz.OrmStore("ecocredit").(api.StateStore)
 	bs := zz.OrmStore("basket").(basketapi.StateStore)
 	ms := zz.OrmStore("marketplace").(marketapi.StateStore)
@@ -28,15 +28,15 @@ func symKeeper() (Keeper, []byte) {
 	return NewKeeper(ss, bk, zz.ModuleAddr(ecocredit.ModuleName), bs, ms, sdk.AccAddress(authority)), authority
 }
 
-type stepCtx = zzinv.Step
+type zzvStepCtx = zzinv.Step
 
-func runStep(req sdk.Msg, call func(k Keeper, ctx context.Context) error, issued func(b uint64) zz.Q, hook func(s *stepCtx)) {
+func zzvRunStep(req sdk.Msg, call func(k Keeper, ctx context.Context) error, issued func(b uint64) zz.Q, hook func(s *zzvStepCtx)) {
 	zzinv.Install()
-	k, authority := symKeeper()
+	k, authority := zzvSymKeeper()
 	zzinv.RunStep(authority, req, func(ctx context.Context) error { return call(k, ctx) }, issued, hook)
 }
 
-func sumIssuance(list []*types.BatchIssuance) zz.Q {
+func zzvSumIssuance(list []*types.BatchIssuance) zz.Q {
 	t := zz.QInt(0)
 	for _, i := range list {
 		t = zz.QAdd(t, zz.QAdd(zz.QParse(i.TradableAmount), zz.QParse(i.RetiredAmount)))
@@ -48,23 +48,23 @@ func sumIssuance(list []*types.BatchIssuance) zz.Q {
 
 func VerifHarness_Step_Send() {
 	req := &types.MsgSend{}
-	runStep(req, func(k Keeper, ctx context.Context) error { _, err := k.Send(ctx, req); return err }, nil, nil)
+	zzvRunStep(req, func(k Keeper, ctx context.Context) error { _, err := k.Send(ctx, req); return err }, nil, nil)
 }
 
 func VerifHarness_Step_Retire() {
 	req := &types.MsgRetire{}
-	runStep(req, func(k Keeper, ctx context.Context) error { _, err := k.Retire(ctx, req); return err }, nil, nil)
+	zzvRunStep(req, func(k Keeper, ctx context.Context) error { _, err := k.Retire(ctx, req); return err }, nil, nil)
 }
 
 func VerifHarness_Step_Cancel() {
 	req := &types.MsgCancel{}
-	runStep(req, func(k Keeper, ctx context.Context) error { _, err := k.Cancel(ctx, req); return err }, nil, nil)
+	zzvRunStep(req, func(k Keeper, ctx context.Context) error { _, err := k.Cancel(ctx, req); return err }, nil, nil)
 }
 
 func VerifHarness_Step_Bridge() {
 	req := &types.MsgBridge{}
-	runStep(req, func(k Keeper, ctx context.Context) error { _, err := k.Bridge(ctx, req); return err }, nil,
-		func(s *stepCtx) {
+	zzvRunStep(req, func(k Keeper, ctx context.Context) error { _, err := k.Bridge(ctx, req); return err }, nil,
+		func(s *zzvStepCtx) {
 			if s.Err == nil {
 				zz.Assert(zz.OrmExists0("regen.ecocredit.v1.AllowedBridgeChain", strings.ToLower(req.Target)), "C13 Bridge succeeds only for an allowed target chain")
 				cancelled := zz.QInt(0)
@@ -101,12 +101,12 @@ func VerifHarness_Step_Bridge() {
 
 func VerifHarness_Step_CreateBatch() {
 	req := &types.MsgCreateBatch{}
-	runStep(req, func(k Keeper, ctx context.Context) error { _, err := k.CreateBatch(ctx, req); return err },
+	zzvRunStep(req, func(k Keeper, ctx context.Context) error { _, err := k.CreateBatch(ctx, req); return err },
 		func(b uint64) zz.Q {
 			// the batch created by this message is the one that exists now and did not before
 			created := zz.And(zz.OrmExists1(zzinv.TBatch, b), zz.Not(zz.OrmExists0(zzinv.TBatch, b)))
-			return zz.QIf(created, sumIssuance(req.Issuance), zz.QInt(0))
-		}, func(s *stepCtx) {
+			return zz.QIf(created, zzvSumIssuance(req.Issuance), zz.QInt(0))
+		}, func(s *zzvStepCtx) {
 			if s.Err == nil {
 				var p api.Project
 				found := zz.OrmLookup0(zzinv.TProject, "Id", &p, req.ProjectId)
@@ -132,12 +132,12 @@ func VerifHarness_Step_CreateBatch() {
 
 func VerifHarness_Step_MintBatchCredits() {
 	req := &types.MsgMintBatchCredits{}
-	runStep(req, func(k Keeper, ctx context.Context) error { _, err := k.MintBatchCredits(ctx, req); return err },
+	zzvRunStep(req, func(k Keeper, ctx context.Context) error { _, err := k.MintBatchCredits(ctx, req); return err },
 		func(b uint64) zz.Q {
 			var bt api.Batch
 			found := zz.OrmLookup0(zzinv.TBatch, "Denom", &bt, req.BatchDenom)
-			return zz.QIf(zz.And(found, bt.Key == b), sumIssuance(req.Issuance), zz.QInt(0))
-		}, func(s *stepCtx) {
+			return zz.QIf(zz.And(found, bt.Key == b), zzvSumIssuance(req.Issuance), zz.QInt(0))
+		}, func(s *zzvStepCtx) {
 			if s.Err == nil {
 				var bt api.Batch
 				found := zz.OrmLookup0(zzinv.TBatch, "Denom", &bt, req.BatchDenom)
@@ -152,7 +152,7 @@ func VerifHarness_Step_MintBatchCredits() {
 
 func VerifHarness_Step_BridgeReceive() {
 	req := &types.MsgBridgeReceive{}
-	runStep(req, func(k Keeper, ctx context.Context) error { _, err := k.BridgeReceive(ctx, req); return err },
+	zzvRunStep(req, func(k Keeper, ctx context.Context) error { _, err := k.BridgeReceive(ctx, req); return err },
 		func(b uint64) zz.Q {
 			// credits land in the batch bound to the contract, or else in the batch created now
 			var c api.Class
@@ -162,7 +162,7 @@ func VerifHarness_Step_BridgeReceive() {
 			created := zz.And(zz.OrmExists1(zzinv.TBatch, b), zz.Not(zz.OrmExists0(zzinv.TBatch, b)))
 			target := zz.BIf(bound, bc.BatchKey == b, created)
 			return zz.QIf(target, zz.QParse(req.Batch.Amount), zz.QInt(0))
-		}, func(s *stepCtx) {
+		}, func(s *zzvStepCtx) {
 			if s.Err == nil {
 				zz.Assert(zz.OrmExists0("regen.ecocredit.v1.AllowedBridgeChain", strings.ToLower(req.OriginTx.Source)), "C13 BridgeReceive succeeds only for an allowed source chain")
 				var c api.Class
@@ -180,8 +180,8 @@ func VerifHarness_Step_BridgeReceive() {
 
 func VerifHarness_Step_SealBatch() {
 	req := &types.MsgSealBatch{}
-	runStep(req, func(k Keeper, ctx context.Context) error { _, err := k.SealBatch(ctx, req); return err }, nil,
-		func(s *stepCtx) {
+	zzvRunStep(req, func(k Keeper, ctx context.Context) error { _, err := k.SealBatch(ctx, req); return err }, nil,
+		func(s *zzvStepCtx) {
 			if s.Err == nil {
 				var bt api.Batch
 				found := zz.OrmLookup0(zzinv.TBatch, "Denom", &bt, req.BatchDenom)
@@ -194,8 +194,8 @@ func VerifHarness_Step_SealBatch() {
 
 func VerifHarness_Step_CreateClass() {
 	req := &types.MsgCreateClass{}
-	runStep(req, func(k Keeper, ctx context.Context) error { _, err := k.CreateClass(ctx, req); return err }, nil,
-		func(s *stepCtx) {
+	zzvRunStep(req, func(k Keeper, ctx context.Context) error { _, err := k.CreateClass(ctx, req); return err }, nil,
+		func(s *zzvStepCtx) {
 			s.SkipC05 = true
 			var fee api.ClassFee
 			zz.OrmRow0("regen.ecocredit.v1.ClassFee", &fee)
@@ -253,8 +253,8 @@ func VerifHarness_Step_CreateClass() {
 
 func VerifHarness_Step_CreateProject() {
 	req := &types.MsgCreateProject{}
-	runStep(req, func(k Keeper, ctx context.Context) error { _, err := k.CreateProject(ctx, req); return err }, nil,
-		func(s *stepCtx) {
+	zzvRunStep(req, func(k Keeper, ctx context.Context) error { _, err := k.CreateProject(ctx, req); return err }, nil,
+		func(s *zzvStepCtx) {
 			if s.Err == nil {
 				var c api.Class
 				found := zz.OrmLookup0(zzinv.TClass, "Id", &c, req.ClassId)
@@ -277,8 +277,8 @@ func VerifHarness_Step_CreateProject() {
 
 func VerifHarness_Step_UpdateClassAdmin() {
 	req := &types.MsgUpdateClassAdmin{}
-	runStep(req, func(k Keeper, ctx context.Context) error { _, err := k.UpdateClassAdmin(ctx, req); return err }, nil,
-		func(s *stepCtx) {
+	zzvRunStep(req, func(k Keeper, ctx context.Context) error { _, err := k.UpdateClassAdmin(ctx, req); return err }, nil,
+		func(s *zzvStepCtx) {
 			if s.Err == nil {
 				var c api.Class
 				found := zz.OrmLookup0(zzinv.TClass, "Id", &c, req.ClassId)
@@ -293,8 +293,8 @@ func VerifHarness_Step_UpdateClassAdmin() {
 
 func VerifHarness_Step_UpdateClassIssuers() {
 	req := &types.MsgUpdateClassIssuers{}
-	runStep(req, func(k Keeper, ctx context.Context) error { _, err := k.UpdateClassIssuers(ctx, req); return err }, nil,
-		func(s *stepCtx) {
+	zzvRunStep(req, func(k Keeper, ctx context.Context) error { _, err := k.UpdateClassIssuers(ctx, req); return err }, nil,
+		func(s *zzvStepCtx) {
 			if s.Err == nil {
 				var c api.Class
 				found := zz.OrmLookup0(zzinv.TClass, "Id", &c, req.ClassId)
@@ -309,8 +309,8 @@ func VerifHarness_Step_UpdateClassIssuers() {
 
 func VerifHarness_Step_UpdateClassMetadata() {
 	req := &types.MsgUpdateClassMetadata{}
-	runStep(req, func(k Keeper, ctx context.Context) error { _, err := k.UpdateClassMetadata(ctx, req); return err }, nil,
-		func(s *stepCtx) {
+	zzvRunStep(req, func(k Keeper, ctx context.Context) error { _, err := k.UpdateClassMetadata(ctx, req); return err }, nil,
+		func(s *zzvStepCtx) {
 			if s.Err == nil {
 				var c api.Class
 				found := zz.OrmLookup0(zzinv.TClass, "Id", &c, req.ClassId)
@@ -325,8 +325,8 @@ func VerifHarness_Step_UpdateClassMetadata() {
 
 func VerifHarness_Step_UpdateProjectAdmin() {
 	req := &types.MsgUpdateProjectAdmin{}
-	runStep(req, func(k Keeper, ctx context.Context) error { _, err := k.UpdateProjectAdmin(ctx, req); return err }, nil,
-		func(s *stepCtx) {
+	zzvRunStep(req, func(k Keeper, ctx context.Context) error { _, err := k.UpdateProjectAdmin(ctx, req); return err }, nil,
+		func(s *zzvStepCtx) {
 			if s.Err == nil {
 				var p api.Project
 				found := zz.OrmLookup0(zzinv.TProject, "Id", &p, req.ProjectId)
@@ -341,8 +341,8 @@ func VerifHarness_Step_UpdateProjectAdmin() {
 
 func VerifHarness_Step_UpdateProjectMetadata() {
 	req := &types.MsgUpdateProjectMetadata{}
-	runStep(req, func(k Keeper, ctx context.Context) error { _, err := k.UpdateProjectMetadata(ctx, req); return err }, nil,
-		func(s *stepCtx) {
+	zzvRunStep(req, func(k Keeper, ctx context.Context) error { _, err := k.UpdateProjectMetadata(ctx, req); return err }, nil,
+		func(s *zzvStepCtx) {
 			if s.Err == nil {
 				var p api.Project
 				found := zz.OrmLookup0(zzinv.TProject, "Id", &p, req.ProjectId)
@@ -357,8 +357,8 @@ func VerifHarness_Step_UpdateProjectMetadata() {
 
 func VerifHarness_Step_UpdateBatchMetadata() {
 	req := &types.MsgUpdateBatchMetadata{}
-	runStep(req, func(k Keeper, ctx context.Context) error { _, err := k.UpdateBatchMetadata(ctx, req); return err }, nil,
-		func(s *stepCtx) {
+	zzvRunStep(req, func(k Keeper, ctx context.Context) error { _, err := k.UpdateBatchMetadata(ctx, req); return err }, nil,
+		func(s *zzvStepCtx) {
 			if s.Err == nil {
 				var bt api.Batch
 				found := zz.OrmLookup0(zzinv.TBatch, "Denom", &bt, req.BatchDenom)
@@ -374,8 +374,8 @@ func VerifHarness_Step_UpdateBatchMetadata() {
 
 func VerifHarness_Step_AddCreditType() {
 	req := &types.MsgAddCreditType{}
-	runStep(req, func(k Keeper, ctx context.Context) error { _, err := k.AddCreditType(ctx, req); return err }, nil,
-		func(s *stepCtx) {
+	zzvRunStep(req, func(k Keeper, ctx context.Context) error { _, err := k.AddCreditType(ctx, req); return err }, nil,
+		func(s *zzvStepCtx) {
 			if s.Err == nil {
 				zz.Assert(zz.BytesEq(s.Signer, s.Authority), "C08 AddCreditType succeeds only for the governance authority")
 			}
@@ -384,8 +384,8 @@ func VerifHarness_Step_AddCreditType() {
 
 func VerifHarness_Step_SetClassCreatorAllowlist() {
 	req := &types.MsgSetClassCreatorAllowlist{}
-	runStep(req, func(k Keeper, ctx context.Context) error { _, err := k.SetClassCreatorAllowlist(ctx, req); return err }, nil,
-		func(s *stepCtx) {
+	zzvRunStep(req, func(k Keeper, ctx context.Context) error { _, err := k.SetClassCreatorAllowlist(ctx, req); return err }, nil,
+		func(s *zzvStepCtx) {
 			if s.Err == nil {
 				zz.Assert(zz.BytesEq(s.Signer, s.Authority), "C08 SetClassCreatorAllowlist succeeds only for the governance authority")
 			}
@@ -394,8 +394,8 @@ func VerifHarness_Step_SetClassCreatorAllowlist() {
 
 func VerifHarness_Step_AddClassCreator() {
 	req := &types.MsgAddClassCreator{}
-	runStep(req, func(k Keeper, ctx context.Context) error { _, err := k.AddClassCreator(ctx, req); return err }, nil,
-		func(s *stepCtx) {
+	zzvRunStep(req, func(k Keeper, ctx context.Context) error { _, err := k.AddClassCreator(ctx, req); return err }, nil,
+		func(s *zzvStepCtx) {
 			if s.Err == nil {
 				zz.Assert(zz.BytesEq(s.Signer, s.Authority), "C08 AddClassCreator succeeds only for the governance authority")
 			}
@@ -404,8 +404,8 @@ func VerifHarness_Step_AddClassCreator() {
 
 func VerifHarness_Step_RemoveClassCreator() {
 	req := &types.MsgRemoveClassCreator{}
-	runStep(req, func(k Keeper, ctx context.Context) error { _, err := k.RemoveClassCreator(ctx, req); return err }, nil,
-		func(s *stepCtx) {
+	zzvRunStep(req, func(k Keeper, ctx context.Context) error { _, err := k.RemoveClassCreator(ctx, req); return err }, nil,
+		func(s *zzvStepCtx) {
 			if s.Err == nil {
 				zz.Assert(zz.BytesEq(s.Signer, s.Authority), "C08 RemoveClassCreator succeeds only for the governance authority")
 			}
@@ -414,8 +414,8 @@ func VerifHarness_Step_RemoveClassCreator() {
 
 func VerifHarness_Step_UpdateClassFee() {
 	req := &types.MsgUpdateClassFee{}
-	runStep(req, func(k Keeper, ctx context.Context) error { _, err := k.UpdateClassFee(ctx, req); return err }, nil,
-		func(s *stepCtx) {
+	zzvRunStep(req, func(k Keeper, ctx context.Context) error { _, err := k.UpdateClassFee(ctx, req); return err }, nil,
+		func(s *zzvStepCtx) {
 			if s.Err == nil {
 				zz.Assert(zz.BytesEq(s.Signer, s.Authority), "C08 UpdateClassFee succeeds only for the governance authority")
 			}
@@ -424,8 +424,8 @@ func VerifHarness_Step_UpdateClassFee() {
 
 func VerifHarness_Step_AddAllowedBridgeChain() {
 	req := &types.MsgAddAllowedBridgeChain{}
-	runStep(req, func(k Keeper, ctx context.Context) error { _, err := k.AddAllowedBridgeChain(ctx, req); return err }, nil,
-		func(s *stepCtx) {
+	zzvRunStep(req, func(k Keeper, ctx context.Context) error { _, err := k.AddAllowedBridgeChain(ctx, req); return err }, nil,
+		func(s *zzvStepCtx) {
 			if s.Err == nil {
 				zz.Assert(zz.BytesEq(s.Signer, s.Authority), "C08 AddAllowedBridgeChain succeeds only for the governance authority")
 			}
@@ -434,8 +434,8 @@ func VerifHarness_Step_AddAllowedBridgeChain() {
 
 func VerifHarness_Step_RemoveAllowedBridgeChain() {
 	req := &types.MsgRemoveAllowedBridgeChain{}
-	runStep(req, func(k Keeper, ctx context.Context) error { _, err := k.RemoveAllowedBridgeChain(ctx, req); return err }, nil,
-		func(s *stepCtx) {
+	zzvRunStep(req, func(k Keeper, ctx context.Context) error { _, err := k.RemoveAllowedBridgeChain(ctx, req); return err }, nil,
+		func(s *zzvStepCtx) {
 			if s.Err == nil {
 				zz.Assert(zz.BytesEq(s.Signer, s.Authority), "C08 RemoveAllowedBridgeChain succeeds only for the governance authority")
 			}
@@ -444,8 +444,8 @@ func VerifHarness_Step_RemoveAllowedBridgeChain() {
 
 func VerifHarness_Step_BurnRegen() {
 	req := &types.MsgBurnRegen{}
-	runStep(req, func(k Keeper, ctx context.Context) error { _, err := k.BurnRegen(ctx, req); return err }, nil,
-		func(s *stepCtx) {
+	zzvRunStep(req, func(k Keeper, ctx context.Context) error { _, err := k.BurnRegen(ctx, req); return err }, nil,
+		func(s *zzvStepCtx) {
 			// a basket token denom starts with "eco." (ValidateBasketDenom), so it is not uregen
 			zz.Assume(zz.Not(zz.StrEq(zzinv.BasketDenomOf(s.Sk.Basket), "uregen")))
 		})
